@@ -20,6 +20,7 @@ static soxr_error_t create_err;
 static unsigned ch = 1;
 static int itype, otype;
 static double irate, orate;
+static soxr_quality_spec_t last_q; static soxr_io_spec_t last_io; static soxr_runtime_spec_t last_rt;   /* specs of the last `create` (op `oneshot`) */
 static uint64_t pos;             /* input frames consumed so far (absolute index of the next frame) */
 static uint64_t total_out;
 static uint64_t hash[64];
@@ -270,6 +271,7 @@ static void do_create(char * * t, int nt)
   rt.log2_large_dft_size = (unsigned)kvu(t, nt, "large", rt.log2_large_dft_size);
   rt.coef_size_kbytes = (unsigned)kvu(t, nt, "kb", rt.coef_size_kbytes);
   rt.flags = kvu(t, nt, "rtflags", 0);
+  last_q = q; last_io = io; last_rt = rt;
   if (S) soxr_delete(S);
   S = soxr_create(irate, orate, ch, &create_err, &io, &q, &rt);
   pos = total_out = 0; memset(hash, 0, sizeof(hash)); max_ilen_set = 0; limitN = UINT64_MAX; sig_shift = 0; eoi_style = 0; null_out = 0; perturb_at = UINT64_MAX;
@@ -408,6 +410,19 @@ int main(void)
       soxr_error_t e = soxr_set_io_ratio(S, strtod(t[1], 0), (size_t)strtoull(t[2], 0, 10));
       soxr_set_error(S, e);
       printf("E ratio %s\n", e? e : "ok");
+    }
+    else if (!strcmp(t[0], "oneshot") && nt >= 3) {   /* oneshot n olen: the real soxr_oneshot with the specs of the last create, over the first n frames of the signal */
+      size_t n = (size_t)strtoull(t[1], 0, 10), ol = (size_t)strtoull(t[2], 0, 10), idone = 0, odone = 0; void * in_free = 0, * in, * out;
+      uint64_t save_pos = pos, save_out = total_out, save_hash[64]; unsigned c; soxr_error_t e;
+      memcpy(save_hash, hash, sizeof(hash)); memset(hash, 0, sizeof(hash)); pos = 0; total_out = 0;
+      in = make_input(n, &in_free); out = make_output(ol);
+      e = soxr_oneshot(irate, orate, ch, in, n, &idone, out, ol, &odone, &last_io, &last_q, &last_rt);
+      if (odone <= ol) absorb_output(out, odone);
+      printf("H1 out=%" PRIu64 " idone=%zu err=%s", total_out, idone, e? e : "-");
+      for (c = 0; c < ch && c < 64; ++c) printf(" %016" PRIx64, hash[c]);
+      printf("\n");
+      free_input(in, in_free); free_output(out);
+      memcpy(hash, save_hash, sizeof(hash)); pos = save_pos; total_out = save_out;
     }
     else if (!strcmp(t[0], "eoi")) do_eoi();     /* end of input signalled by a call with neither an input nor an output buffer */
     else if (!strcmp(t[0], "eoistyle") && nt >= 2) eoi_style = atoi(t[1]);
